@@ -34,7 +34,8 @@ REASONS = ["file header invalid", "file header version", "file header length dif
            "no DATA chunk for a signal with samples", "first DATA chunk does not start at the first sample id",
            "DATA entry size differs from the signal's type", "DATA chunk is not aligned to the block size",
            "a DATA chunk other than the last is not full", "DATA beyond the last submitted sample",
-           "DATA payload size does not match its entry count", "DATA chunk content differs from the submitted samples"]
+           "DATA payload size does not match its entry count", "DATA chunk content differs from the submitted samples",
+           "FSR SUMMARY entry size differs from what the format prescribes for the signal's type"]
 for _r in REASONS:
     apicheck.REASON_PROP[_r] = "C05"
 
